@@ -337,6 +337,11 @@ pub fn check(info: &mut CaseInfo, case: &BlockCase) -> CheckResult {
         let t = if let Some(rest) = t.strip_prefix("--- ") { format!("---\t{rest}") } else { t };
         variants.push(("tab-after-marker", t));
     }
+    if r.doc.contains(" # header comment") {
+        // the separation before a header comment is blanks *or tabs*
+        variants.push(("tab-before-header-comment", r.doc.replace(" # header comment", "\t# header comment")));
+        variants.push(("blanks-and-tabs-before-header-comment", r.doc.replace(" # header comment", " \t # header comment")));
+    }
     for (name, doc) in &variants {
         for b in [Backend::Str, Backend::Buffered] {
             let o = parse_with(b, doc);
@@ -356,6 +361,7 @@ pub fn check(info: &mut CaseInfo, case: &BlockCase) -> CheckResult {
         info.class(match *name {
             "crlf" => "variant:crlf",
             "cr" => "variant:cr",
+            "tab-before-header-comment" | "blanks-and-tabs-before-header-comment" => "variant:tabs-before-header-comment",
             _ => "variant:tab-after-marker",
         });
     }
@@ -478,7 +484,7 @@ impl Property for C05P {
          line list of <= 4 (quick) / <= 5 (thorough) lines over 6 line shapes x 2 styles x 3 chompings x 4 contexts x 3 end shapes. \
          Oracle: value function written from YAML 1.2.2 8.1 (chomping, literal, folded with more-indented and empty lines); whole event \
          list asserted on StrInput, BufferedInput, TestInput<8>, TestInput<128>; the same events are required of the CR LF and lone-CR \
-         versions of every document and, in the root contexts, of the version with a tab after each document marker. Non-trivial = >= 2 content lines or a blank / \
+         versions of every document, of the versions with tabs before a header comment and, in the root contexts, of the version with a tab after each document marker. Non-trivial = >= 2 content lines or a blank / \
          more-indented line or non-clip chomping or explicit indicator or a missing final break; distinct by document text."
             .into()
     }
